@@ -17,5 +17,6 @@ def run(ck):
     sizes.init_size_relation(ck, "C06.R1")
     sizes.best_sizes_assembly(ck, "C06.R2", "C06.R3", "C06.R4")
     sizes.word_max_chain(ck, "C06.R3")
+    sizes.returned_sizes_are_callers(ck, "C06.R5")
     conv.sizes_use_transformed_value(ck, "C06.R4")
     sizes.resize_rules(ck, {"nint": "C02.R3"})
